@@ -163,6 +163,8 @@ class Contract:
             k = st.choose([none] + conds)
             if k > 0:
                 exc = SExc(excs[k - 1], ("<from callee contract>",), site=f"callee {f.ref.qualname}")
+                if self_obj is not None and getattr(self, "log_event", None):
+                    self_obj.trace.append((self.log_event, "raised"))
                 raise PyRaise(exc)
         elif excs:
             k = st.fork(len(excs) + 1)
@@ -173,6 +175,8 @@ class Contract:
                     self.havoc(st, self_obj)
                 for _label, fml in self._gen(self.on_raise(old, self_obj, a, exc) if self_obj is not None else self.on_raise(a, exc)):
                     st.assume(fml)
+                if self_obj is not None and getattr(self, "log_event", None):
+                    self_obj.trace.append((self.log_event, "raised"))
                 raise PyRaise(exc)
         det_terms = None
         if getattr(self, "deterministic", False):
